@@ -499,7 +499,10 @@ theorem SP.l_catchNotDefined {m : M α} {h : Stop → M α} (hm : SP b m) (hh : 
   · intro e he _
     split
     · split
-      · exact hh _
+      · refine SP.bind SP.get fun s => ?_
+        split
+        · exact hh _
+        · exact throwSP_diag _
       · exact throwSP_diag _
     · exact SP.throw he
 
